@@ -219,12 +219,12 @@ func c13Run(c *Ctx) {
 		}
 	}
 	// earlier calls on the same Model: what Run accepts must not depend on them
-	history := r.Intn(3)
-	if inPlace && history == 0 {
+	history := r.Intn(4)
+	if inPlace && (history == 0 || history == 3) {
 		history = 1
 	}
 	sigStr := sigString(ins)
-	c.SetCase("signature %s; supplied %s; deviation: %s; expect accept=%v; earlier calls on the model: %s", sigStr, feedString(feed), deviation, accept, []string{"none", "one conforming Run", "conforming Run, rejected empty set, conforming Run"}[history])
+	c.SetCase("signature %s; supplied %s; deviation: %s; expect accept=%v; earlier calls on the model: %s", sigStr, feedString(feed), deviation, accept, []string{"none", "one conforming Run", "conforming Run, rejected empty set, conforming Run", "a Run with conforming shapes that fails inside a node (bool tensors)"}[history])
 	c.Count(fmt.Sprintf("history:%d", history), 1)
 	hasDyn := strings.Contains(sigStr, "?") || strings.Contains(sigStr, "N") || strings.Contains(sigStr, "batch") || strings.Contains(sigStr, "seq")
 	if deviation != "none" || hasDyn {
@@ -262,7 +262,16 @@ func c13Run(c *Ctx) {
 			_, err := m.Run(in)
 			return err
 		}
-		if history >= 1 {
+		if history == 3 {
+			// shapes conform, so the signature check passes; Relu refuses bool, so the Run fails
+			// inside a node - with every caller tensor already handed over
+			in := gonnx.Tensors{}
+			for k, v := range conforming {
+				in[k] = mon.ToTensor(ref.New(ref.Bool, v.Shape...))
+			}
+			_, _ = m.Run(in) // (succeeds when no node reads a supplied input: fine too)
+		}
+		if history >= 1 && history <= 2 {
 			if err := prior(conforming); err != nil {
 				return nil, fmt.Errorf("earlier conforming Run: %w", err)
 			}
